@@ -51,6 +51,18 @@ def main(ck, pid, cfg, tier, seed, replay):
                     else:
                         outputs[name(fs)] = dict(l.split(' ', 2)[1:] for l in out.splitlines() if l.startswith('fp '))
     lines = []
+    # a type on which the library panics under some feature sets: the expression of the type is the failing input
+    keys = sorted({k for o in outputs.values() for k in o})
+    for k in keys:
+        pan = sorted(s for s, o in outputs.items() if o.get(k, '').startswith('panic'))
+        if pan:
+            fine = sorted(s for s in outputs if s not in pan)
+            expr = outputs[pan[0]][k][6:]
+            failures.append(dict(stream='fp', kind='SPECFAIL', case=f'fp-item {k} {expr}',
+                                 detail=f'C15: registering `{expr}` (corpus item {k}, seed {seed}) panics with scale-info features {pan}' +
+                                        (f' and yields a registry with {fine}' if fine else ' (every feature set built)')))
+            for o in outputs.values():
+                o.pop(k, None)
     plain = [s for s in outputs if 'docs' not in s.split('+')]
     docs = [s for s in outputs if 'docs' in s.split('+')]
     if plain:
